@@ -1,6 +1,9 @@
 """C04/C05 IMPL side (run under /venv/bin/python with PYTHONPATH=<repo>/python).
 
   c04_streams.py classes           -> one JSON line: every registered payload class with one encoder-built message
+  c04_streams.py encode            -> per input line "<seed> <k> <initial sequence_number>": one JSON line with k messages of random
+                                      classes built and serialised by ONE FusionEngineEncoder (random source ids; length-inferred
+                                      payloads get random data): [{type, version, source, payload hex, out hex}]
   c04_streams.py impl              -> line protocol runner around FusionEngineDecoder (see below)
 
 impl input line:   <S|V> <maxp> <maxe|-> <rb> <ro> <opts> <stream-hex|-> <chunkings>
@@ -262,5 +265,40 @@ def classes_main():
                       'max_expected': MessageHeader._MAX_EXPECTED_SIZE_BYTES}))
 
 
+def encode_main():
+    import random
+    _imports()
+    buildable = []
+    for t, cls in sorted(message_type_to_class.items(), key=lambda kv: int(kv[0])):
+        try:
+            FusionEngineEncoder().encode_message(cls())
+            buildable.append(cls)
+        except Exception:
+            pass
+    for line in sys.stdin:
+        w = line.split()
+        if not w:
+            continue
+        seed, k, s0 = int(w[0]), int(w[1]), int(w[2])
+        r = random.Random(seed)
+        enc = FusionEngineEncoder()
+        enc.sequence_number = s0
+        msgs = []
+        try:
+            for _ in range(k):
+                cls = r.choice(buildable)
+                obj = cls()
+                if hasattr(obj, 'data') and isinstance(getattr(obj, 'data'), (bytes, bytearray)) and type(obj).__name__ in ('InputDataWrapperMessage', 'STA5635IQData'):
+                    obj.data = bytes(r.randrange(256) for _ in range(r.choice([0, 1, 4, 30])))
+                src = r.choice([0, 1, 7, 0xFFFFFFFF, r.getrandbits(32)])
+                out = enc.encode_message(obj, source_identifier=src)
+                msgs.append({'type': int(obj.get_type()), 'version': int(obj.get_version()), 'source': src,
+                             'payload': bytes(obj.pack()).hex(), 'out': bytes(out).hex(), 'cls': cls.__name__})
+            print(json.dumps({'msgs': msgs, 'final_seq': enc.sequence_number}))
+        except Exception as e:
+            print(json.dumps({'error': '%s: %s' % (type(e).__name__, str(e)[:200]), 'msgs': msgs}))
+    sys.stdout.flush()
+
+
 if __name__ == '__main__':
-    {'impl': impl_main, 'classes': classes_main}[sys.argv[1]]()
+    {'impl': impl_main, 'classes': classes_main, 'encode': encode_main}[sys.argv[1]]()
